@@ -3,7 +3,7 @@
 From Coq.Strings Require Import Byte String.
 From Coq Require Import List Arith NArith Bool.
 Import ListNotations.
-From V Require Import lib.Bytes lib.Sexp model.Ast model.Url model.Gen spec.Denote model.IrFrag model.IrFragPrint.
+From V Require Import lib.Bytes lib.Sexp model.Ast model.Url model.Gen spec.Denote spec.ScriptOnce model.IrFrag model.IrFragPrint.
 Local Open Scope nat_scope.
 
 Definition fr_str (ev : Denote.env) (e : expr) : option bytes :=
@@ -41,8 +41,18 @@ Definition fr_known (names : list bytes) (x : bytes) : bool :=
   | CWrap _ _ | CIgnore | CRaw _ | CNop => true
   | _ => false end.
 Definition fr_call_env (ev : Denote.env) (e : expr) : Denote.env := Denote.restrict ev.
-(* definitions written by RenderCSSItems / RenderScriptItems: the probe vocabulary uses plain class items and scripts whose
-   Function is empty, for which the runtime writes nothing (what it writes otherwise is C12's subject) *)
+(* the ComponentScript value of an on* expression: Name and Function from the environment (an expression without entries is a
+   script whose Function is empty, for which the runtime writes nothing) *)
+Definition fr_script_item (ev : Denote.env) (e : expr) : sitem :=
+  (match fr_look ev "script-name:" e with Some (VStr s) => s | _ => e_val e end,
+   match fr_look ev "script-fn:" e with Some (VStr s) => s | _ => [] end).
+(* templ.RenderScriptItems(ctx, buf, es...): which definitions it writes depends on what the render context has already written;
+   the renderers write the item list in-band and spec/ScriptOnce.v's resolve_doc turns the finished document into bytes *)
+Definition fr_script_defs (ev : Denote.env) (es : list expr) : bytes := enc_hoist (map (fr_script_item ev) es).
+(* definitions written by RenderCSSItems: the probe vocabulary uses plain class items, for which the runtime writes nothing
+   (what it writes otherwise is C12's subject) *)
 Definition fr_orc : oracles Denote.env :=
-  Oracles Denote.env Gen.hesc fr_str fr_bool fr_for fr_sw fr_class (fun _ _ => []) fr_url fr_style fr_script_call (fun _ _ => [])
+  Oracles Denote.env Gen.hesc fr_str fr_bool fr_for fr_sw fr_class (fun _ _ => []) fr_url fr_style fr_script_call fr_script_defs
           fr_spread fr_js fr_comp fr_call_env.
+(* the document of a finished render: pending script definitions resolved against the (fresh) render context *)
+Definition resolve_res (r : res) : res := let '(o, t, p) := r in (resolve_doc o, t, p).
